@@ -6,23 +6,24 @@ PROP = "C10"
 TITLE = "String and key quoting is exact for every string in every offered style"
 COQ_PROPS = "Props/C10.v"
 DRIVER_NAME = "c10"
-HARNESS = {"bin": "c10"}          # release profile: the u8 quote-run counters wrap (see ASSUMPTIONS)
+HARNESS = {"bin": "c10"}
+EXTRA_HARNESS = {"dev": ("dev", ())}      # debug assertions + overflow checks: the u8 quote-run counters must saturate, not overflow
+EXTRA_ORACLE = ["dev"]
 THEOREMS = [
     "C10_value_styles: forall s st t, utf8_valid s -> write_string st s = Some t -> string_ reads t back as s consuming all of it, and Value::from_str's parser returns the string scalar s",
     "C10_key_styles: forall s st t, utf8_valid s -> write_key st s = Some t -> simple_key reads t back as s consuming all of it",
     "C10_default_total: forall s, write_string default s <> None /\\ write_key default s <> None",
     "C10_in_document: default key token ++ ' = ' ++ default value token ++ LF parses to the one-entry root table k -> string v",
-    "C10_overflow_refuted: exists s, vmetrics_of false s = WOverflow (256 apostrophes: the u8 run counter overflows in a build with overflow checks)",
+    "C10_counters_saturate: the u8 quote-run counters of the metrics pass never exceed 255 (fixed defect: they overflowed at 256 quotes)",
 ]
 RULE = ("exhaustive: all strings of length <= 4 (quick) / <= 6 (thorough) over one representative per byte class the "
         "encoder distinguishes (\", ', \\, LF, CR, tab, space, NUL, ESC, DEL, #, a, e-acute, U+1F600), each as a value "
         "(7 styles) and as a key (5 styles); random long strings (<= 40 symbols) with runs of 3..6 quotes of both kinds "
-        "in the middle and at both ends; runs of 255/256/257 quotes (release-build wrap of the u8 counters); "
+        "in the middle and at both ends; runs of 254..768 quotes (saturation of the u8 counters), also in a build with overflow checks; "
         "non-trivial = every case (each exercises at least the default and the basic style)")
 ASSUMPTIONS = [
     "strings reach the builders as valid UTF-8 (&str); generated that way",
-    "theorems and the quick comparison are about the release-build arithmetic (u8 `+= 1` wraps at 256 quotes); "
-    "with overflow checks on, TomlStringBuilder::new panics on 256 consecutive quotes (C10_overflow_refuted, reported as a finding)",
+    "the u8 run counters saturate (repo commit 245f548); the same cases run in a release build and in a build with debug assertions and overflow checks",
     "Value::from_str / Key::from_str / DocumentMut::from_str are the observation points for the parsers",
 ]
 
@@ -76,7 +77,7 @@ def gen_cases(rng, tier):
         if rng.random() < 0.3:
             s = s + rng.choice(kinds) * rng.choice((1, 2, 3, 4, 5, 6))
         add(s, "random-runs", keys=(rng.random() < 0.25))
-    # u8 wrap of the run counters (release build): these must still round-trip
+    # saturation of the u8 run counters: these must still round-trip (and not overflow in a checked build)
     for q in (b'"', b"'"):
         for n in (254, 255, 256, 257, 258, 511, 512, 513, 768):
             add(q * n, "wrap", keys=False)
